@@ -203,8 +203,12 @@ let run_scenario (sc : scn) (ops : string list list) : unit =
       | [ "s" ] -> ignore (exec d w (SOp OService))
       | [ "S"; k ] -> for _ = 1 to ios k do ignore (exec d w (SOp OService)) done
       | [ "D"; k ] ->
-        (* drain: call service until it returns OK (0), at most k times *)
-        let rec go i = if i < ios k then (if exec d w (SOp OService) <> 0 then go (i + 1)) in
+        (* drain: call service until it returns OK (0) with no unread input left, at most k times *)
+        let rec go i =
+          if i < ios k then begin
+            let st = exec d w (SOp OService) in
+            if not (st = 0 && (io !w).inq = []) then go (i + 1)
+          end in
         go 0
       | [ "f"; hx ] -> ignore (exec d w (SFeed (bytes_of_hex hx)))
       | [ "t"; ci; ty ] -> ignore (exec d w (SOp (OTrigger (nat_of_int (ios ci), ctype_of_int (ios ty)))))
